@@ -90,6 +90,28 @@ type editStep struct {
 	pause bool // the editor waits: only eligible while nothing else can run, and then lets simulated time pass
 }
 
+// editorPutFile writes a file the way a person's tools do: directories on the way that do not exist yet are made one by
+// one (each creation is an event in its parent directory, as with mkdir -p), and a file that did not exist is created
+// (an event of its own) before it is written.
+func editorPutFile(fs *FS, abs string, data []byte) {
+	var missing []string
+	for d := path.Dir(abs); d != "/" && d != "."; d = path.Dir(d) {
+		if _, er := fs.lookup(d, true, 0); er == 0 {
+			break
+		}
+		missing = append(missing, d)
+	}
+	for i := len(missing) - 1; i >= 0; i-- {
+		fs.MkdirAllRaw(missing[i])
+		notify(missing[i], EvCreate)
+	}
+	_, er := fs.lookup(abs, true, 0)
+	fs.PutFileRaw(abs, data)
+	if er != 0 {
+		notify(abs, EvCreate)
+	}
+}
+
 func expandEdits(edits []Edit) []editStep {
 	var out []editStep
 	fs := TheFS
@@ -104,26 +126,26 @@ func expandEdits(edits []Edit) []editStep {
 			data := []byte(e.Data)
 			switch steps {
 			case 1:
-				out = append(out, editStep{func() { fs.PutFileRaw(e.Path, data); notify(e.Path, EvWrite) }, "write1 " + e.Path, true, false})
+				out = append(out, editStep{func() { editorPutFile(fs, e.Path, data); notify(e.Path, EvWrite) }, "write1 " + e.Path, true, false})
 			case 2:
-				out = append(out, editStep{func() { fs.PutFileRaw(e.Path, nil); notify(e.Path, EvWrite) }, "trunc " + e.Path, false, false})
-				out = append(out, editStep{func() { fs.PutFileRaw(e.Path, data); notify(e.Path, EvWrite) }, "write " + e.Path, true, false})
+				out = append(out, editStep{func() { editorPutFile(fs, e.Path, nil); notify(e.Path, EvWrite) }, "trunc " + e.Path, false, false})
+				out = append(out, editStep{func() { editorPutFile(fs, e.Path, data); notify(e.Path, EvWrite) }, "write " + e.Path, true, false})
 			default:
 				half := len(data) / 2
-				out = append(out, editStep{func() { fs.PutFileRaw(e.Path, nil); notify(e.Path, EvWrite) }, "trunc " + e.Path, false, false})
-				out = append(out, editStep{func() { fs.PutFileRaw(e.Path, data[:half]); notify(e.Path, EvWrite) }, "write-half " + e.Path, false, false})
-				out = append(out, editStep{func() { fs.PutFileRaw(e.Path, data); notify(e.Path, EvWrite) }, "write-rest " + e.Path, true, false})
+				out = append(out, editStep{func() { editorPutFile(fs, e.Path, nil); notify(e.Path, EvWrite) }, "trunc " + e.Path, false, false})
+				out = append(out, editStep{func() { editorPutFile(fs, e.Path, data[:half]); notify(e.Path, EvWrite) }, "write-half " + e.Path, false, false})
+				out = append(out, editStep{func() { editorPutFile(fs, e.Path, data); notify(e.Path, EvWrite) }, "write-rest " + e.Path, true, false})
 			}
 		case "atomic":
 			tmp := path.Dir(e.Path) + "/." + path.Base(e.Path) + ".swp~"
-			out = append(out, editStep{func() { fs.PutFileRaw(tmp, []byte(e.Data)); notify(tmp, EvCreate); notify(tmp, EvWrite) }, "tmpwrite " + tmp, false, false})
+			out = append(out, editStep{func() { editorPutFile(fs, tmp, []byte(e.Data)); notify(tmp, EvCreate); notify(tmp, EvWrite) }, "tmpwrite " + tmp, false, false})
 			out = append(out, editStep{func() { RenameRaw(tmp, e.Path) }, "rename->" + e.Path, true, false})
 		case "backup":
 			// the way vim saves by default: move the file aside, write a new one under the old name, delete the backup
 			// (for a moment the file does not exist at all)
 			bak := e.Path + "~"
 			out = append(out, editStep{func() { RenameRaw(e.Path, bak) }, "rename-aside " + e.Path, false, false})
-			out = append(out, editStep{func() { fs.PutFileRaw(e.Path, []byte(e.Data)); notify(e.Path, EvCreate); notify(e.Path, EvWrite) }, "write-new " + e.Path, false, false})
+			out = append(out, editStep{func() { editorPutFile(fs, e.Path, []byte(e.Data)); notify(e.Path, EvCreate); notify(e.Path, EvWrite) }, "write-new " + e.Path, false, false})
 			out = append(out, editStep{func() {
 				if p, n, er := fs.parentOf(bak); er == 0 {
 					if _, ok := p.Children[n]; ok {
